@@ -7,6 +7,10 @@ ALL = ["C%02d" % i for i in range(1, 21)]
 CODEC_NOTE = "Trusted: the reflection bridge (identity-checked on every case), the schema universe and alphabets, the reference codecs, the Go toolchain. Schemas enter as the generator's intermediate JSON (the Java parser is absent). Small-scope bounds: depth <= 2 (3 on spines), <= 5 entries, strings <= 2 chars over the metacharacter set + tokens."
 WIRE_NOTE = "Trusted: mc/wire (net/http serialisation + server-side parsing, no sockets), the reflection bridge and call/reply machinery, the resource universe. Resources enter as the generator's intermediate JSON. Association resources are not in the grammar (the generator does not support them)."
 CHECKS = {
+ "C07": dict(engine="enumx", category="model_checking", design="§3 C07",
+   technique="exhaustive enumeration of exclusion specs (1 and 2 paths over candidate paths incl. wildcards and absent names) x writers / readers / leading-scope offsets against a reference path matcher; enumerated annotated-resource cases over the in-memory wire",
+   text="Codec level: 9 nested schemas x every single-path spec and every pair over the candidate paths (all value paths of the fully populated value to depth 4, plus one segment replaced by * or by an absent name; ~80000 specs in quick) x {JSON writer, ROR2 writer, JSON / ROR2 / untyped readers at leading-scope offsets 0-3}: writer output must denote the value minus exactly the matching sub-trees; readers must raise ExcludedFieldError iff the document carries a value at a matching path and must not report excluded required fields missing. Wire level: a resource with read-only and create-only fields at top level, nested, under array and map wildcards: create / batch_create bodies carry no read-only field, update / batch_update no read-only or create-only field, 6 offending patches are refused by the client with zero requests on the wire while 4 clean ones arrive intact, and 13 raw offending bodies are answered 400 without invoking the resource.",
+   note=CODEC_NOTE + " " + WIRE_NOTE + " Specs that would remove the member of a union (leaving a non-value) are not generated."),
  "C16": dict(engine="enumx", category="model_checking", design="§3 C16",
    technique="exhaustive enumeration of key multisets over an adversarial key pool x reply scripts through generated batch clients -> wire -> server -> mock; oracle = refbatch (duplicates rejected before send, ids once and ascending, entries under the caller's own key object)",
    text="For every keyed root collection (string, int64, complex key; more key types in thorough) and batch_get / batch_update / batch_partial_update / batch_delete: every key multiset of size <=3 (thorough 4) over a pool containing FNV-1a-colliding keys (found by deterministic search), complex keys equal up to params, keys differing only in escaping-relevant characters, the empty string and reserved characters; replies assign each key to subsets of {results, statuses, errors} (all 512 assignments on a base key set) and add never-requested keys. Duplicates must be refused with no request on the wire; ids must list each key once in ascending encoded order; every response entry must sit under the very key value the caller supplied (pointer identity for complex keys).",
